@@ -5,9 +5,9 @@ Implementation: the real logger -> coder -> noise -> segments -> network layers 
 harness/c12rig.py (Noise in transport state after a REAL handshake with the rig's dissononce responder; the
 fake dispatcher records every sendData call = the byte stream at the network layer boundary).
 
-Deterministic baton scheduler over real threads: the instance attributes `lock` of the logger, coder, noise
-and segments layers, the noise stream's write queue and the dispatcher's sendData are replaced by instrumented
-versions that hand control to the scheduler BEFORE every acquire / release / put / get / write.  Only the
+Deterministic baton scheduler over real threads: the layers' locks (instrumented at creation, see the end of this
+text), the noise stream's write queue and the dispatcher's sendData hand control to the scheduler BEFORE every
+acquire / release / put / get / write.  Only the
 thread that was granted the baton runs; a thread whose next event is an acquire of a taken lock (or a get on
 an empty queue) is not runnable; "nobody runnable and not all finished" is a deadlock (an observation).
 A schedule is the list of thread ids granted; it is chosen by a seeded random walk or enumerated exhaustively
@@ -31,6 +31,9 @@ with a bounded number of preemptions for small scenarios, PCT and random walks o
 
 Search: after the first trace mismatch the schedule search goes on (bounded) for a schedule on which the
 property oracle itself fails; the VIOLATION then carries that schedule as its replay.
+
+Locks are instrumented where they are CREATED (harness/c11hs.install_lock_factory), never assigned by the harness;
+first stanzas through freshly built stacks are sent concurrently; optional line-level yields inside YowLayer.toLower.
 """
 import json, threading, time
 from .. import modelrun
@@ -50,6 +53,11 @@ ASSUME = [
     "cryptography (encrypt = Section variable `enc`), the encoder (`encode`), struct.pack (`hdr`); the "
     "keep-alive thread is an ordinary sender entering at the protocol group's toLower (layer >= 5); the handshake "
     "thread is a thread of the second model (C11HsModel, see the handshake-side entry below)",
+    "locks: the harness does not assign layer locks; `threading.Lock` as seen by yowsup.layers / noise.layer / "
+    "protocol_iq.layer is rebound to a factory of instrumented locks (a creation is a scheduling point of its own); a "
+    "lock created before that rebinding or by other means is invisible to the scheduler (a thread blocking on it is "
+    "reported as `unmodelled block`, tie broken without input); line-level yields exist only inside YowLayer.toLower "
+    "and only in the runs counted as line_level_runs",
     "symbolic data: the model runs on a free term algebra; the harness maps real bytes to terms by who wrote the "
     "chunk (scheduler) and by decrypting + decoding at the peer",
     "handshake side: modelled WANoiseProtocol.send = `_machine.send()` (raises MachineError unless the state is "
@@ -102,6 +110,8 @@ class Sched(object):
         self.errors = {}
         self.stuck = None
         self.runnables = []       # runnable thread ids at each step
+        self.draining = False
+        self.threads = []
         self.lock_uids = {}       # site name -> distinct lock objects acquired under that name
         self.lock_created = 0     # locks created by scheduled threads during the run
 
@@ -109,9 +119,21 @@ class Sched(object):
         return self.tids.get(threading.get_ident())
 
     def yield_(self, tid, ev):
+        if self.draining:
+            return
         self.pending[tid] = ev
         self.wake.release()
         self.sems[tid].acquire()
+
+    def drain(self):
+        """after a run that ended stuck: let every parked thread go (unscheduled) so that none stays parked while
+        holding a lock the harness does not own; the bench is thrown away afterwards"""
+        self.draining = True
+        for sem in self.sems.values():
+            for _ in range(4):
+                sem.release()
+        for t in self.threads:
+            t.join(0.5)
 
     def enabled(self, ev):
         if ev[0] == "acq":
@@ -122,7 +144,7 @@ class Sched(object):
 
     def run(self, fns):
         n = len(fns)
-        threads = []
+        threads = self.threads
 
         def body(i, fn):
             self.tids[threading.get_ident()] = i
@@ -300,6 +322,8 @@ class Bench(object):
             else:
                 s.run(fns)
         finally:
+            if s.stuck:
+                s.drain()
             self.h.sched = None
         ids, err, leftover = self.peer_read()
         return s, ids, err, leftover
@@ -311,8 +335,8 @@ def expected_ids(scenario):
 
 def oracle(scenario, s, ids, err, leftover):
     probs = []
-    if s.stuck:
-        probs.append(s.stuck)
+    if s.stuck and s.stuck.startswith("deadlock"):
+        probs.append(s.stuck)        # (a block the scheduler cannot see is a limit of the tie: model_check reports it)
     if s.errors:
         probs.append("a sender raised: %r" % s.errors)
     if err:
@@ -349,6 +373,8 @@ def model_check(model, scenario, s, writes, ids):
     diffs = []
     real = [[EV[k], LOCKNODE.get(o, 0)] for (_, k, o) in vis]
     diffs.extend(c11hs.lock_identity_diffs(s.lock_uids))
+    if s.stuck and not s.stuck.startswith("deadlock"):
+        diffs.append("unmodelled block: " + s.stuck)
     if [list(e) for e in evs] != real:
         for i, (a, b) in enumerate(zip(evs, real)):
             if list(a) != b:
@@ -464,7 +490,8 @@ def run(ctx):
 
     def stop():
         # after a trace mismatch keep searching (bounded) for a schedule on which the property itself fails
-        return n_viol[0] >= 3 or (n_corr[0] > 0 and stats["schedules"] - n_corr[1] > 400)
+        return n_viol[0] >= 3 or (n_corr[0] > 0 and stats["schedules"] - n_corr[1] > 400) or \
+            state.get("unmodelled", 0) >= 3      # each unmodelled block costs a backstop wait: do not search on
 
     def move_on(n_here):
         # ... but do not spend the whole search budget in the depth-first tail of one scenario
@@ -488,6 +515,8 @@ def run(ctx):
         diffs = model_check(model, scenario, s, b.writes, ids) if model else []
         if probs or s.stuck or diffs:
             b.dirty = True
+        if s.stuck and not s.stuck.startswith("deadlock"):
+            state["unmodelled"] = state.get("unmodelled", 0) + 1
         key = (json.dumps(scenario), tuple(t for t, _, _ in s.trace))
         if key not in stats["distinct"] and len(set(t for t, _, _ in s.trace)) > 1 and \
                 any(s.trace[i][0] != s.trace[i + 1][0] for i in range(len(s.trace) - 1)):
@@ -551,7 +580,7 @@ def run(ctx):
     def hs_stop():
         # after the first trace mismatch / oracle failure the search goes on (bounded) for schedules on which the
         # property fails in a DIFFERENT way (one replay per kind of failure: lost, out of nonce order, ...)
-        if len(hs["kinds"]) >= 3:
+        if len(hs["kinds"]) >= 3 or state.get("unmodelled", 0) >= 3:
             return True
         first = min([x for x in (hs["first_mismatch_at"], hs["first_viol_at"]) if x is not None] or [None]) \
             if (hs["first_mismatch_at"] is not None or hs["first_viol_at"] is not None) else None
@@ -567,6 +596,8 @@ def run(ctx):
         hs["max_runnable"] = max([hs["max_runnable"]] + s.options)
         probs, peer = c11hs.hs_oracle(b, senders, s)
         diffs = c11hs.hs_model_check(model, b, senders, s, peer) if model else []
+        if s.stuck and not s.stuck.startswith("deadlock"):
+            state["unmodelled"] = state.get("unmodelled", 0) + 1
         outs = [o for v in b.outcomes.values() for o in v]
         if outs and all(o == "ok" for o in outs):
             hs["all_ok"] += 1
